@@ -231,6 +231,11 @@ def canon_atom(e: ast.AST, render) -> Optional[Tuple[str, bool]]:
             return f"in({render(l)},{render(r)})", flip != neg
     if isinstance(e, ast.Call) and isinstance(e.func, ast.Name) and not e.keywords:
         return f"call:{e.func.id}({','.join(render(a) for a in e.args)})", flip
+    if isinstance(e, ast.Call) and isinstance(e.func, ast.Attribute) and isinstance(e.func.value, ast.Name) and e.func.value.id == 'Task' and \
+            e.func.attr.startswith('_Task__') and not e.keywords:
+        # a helper predicate of the module moved into the class as a private static method and called through the class
+        # (`Task.__has_id_intersection(parent, [self])`): the same question under the module helper's name
+        return f"call:_{e.func.attr[len('_Task__'):]}({','.join(render(a) for a in e.args)})", flip
     return None
 
 
@@ -524,6 +529,13 @@ def cond_formula(e: ast.AST, roles: Roles, extra: Dict[str, str], binder_seen: l
         return ('and', parts) if isinstance(e.op, ast.And) else ('or', parts)
     if isinstance(e, ast.Constant) and isinstance(e.value, bool):
         return ('const', e.value)
+    if isinstance(e, ast.Compare) and len(e.ops) == 1 and isinstance(e.left, ast.Constant) and isinstance(e.comparators[0], ast.Constant) and \
+            isinstance(e.ops[0], (ast.Is, ast.IsNot, ast.Eq, ast.NotEq)) and \
+            all(x.value is None or isinstance(x.value, (str, int, bool)) for x in (e.left, e.comparators[0])):
+        # a leaf of a selector chain (`'parent as' is not None`): two literals
+        a_, b_ = e.left.value, e.comparators[0].value
+        eq = (a_ is b_) if (a_ is None or b_ is None) else (type(a_) is type(b_) and a_ == b_)
+        return ('const', eq if isinstance(e.ops[0], (ast.Is, ast.Eq)) else not eq)
     if isinstance(e, ast.IfExp):
         c = cond_formula(e.test, roles, extra, binder_seen)
         return ('or', [('and', [c, cond_formula(e.body, roles, extra, binder_seen)]),
@@ -579,11 +591,14 @@ def _id_membership(e: ast.AST):
 
 
 def _has_links(e: ast.AST):
-    """truthiness of a task's direct link list: `x.predecessors` / `x.__predecessors` / `len(..) > 0` -> ('pred'|'succ', x)"""
+    """truthiness of a task's direct link list or child list: `x.predecessors` / `x.__predecessors` / `len(..) > 0` ->
+    ('pred'|'succ'|'kids', x)"""
     m = match("len($l) > 0", e) or match("len($l) != 0", e) or match("len($l) >= 1", e) or match("len($l)", e) or match("bool($l)", e)
     l = m['l'] if m else e
     if isinstance(l, ast.Attribute) and l.attr in ('predecessors', '_Task__predecessors', 'successors', '_Task__successors'):
         return ('pred' if 'predecessors' in l.attr else 'succ'), l.value
+    if isinstance(l, ast.Attribute) and l.attr in ('children', '_Task__children'):
+        return 'kids', l.value
     return None
 
 
@@ -659,9 +674,79 @@ class GF:
         return sorted(a for a in atoms_of(self.formula) if a.startswith('opaque:'))
 
 
+class TreeExpander(Expander):
+    """the engine's Expander whose if/elif/else join also works for a selector local defined afresh in every round of a loop
+    (`for v in X: if c1: r = A  elif c2: r = B  else: r = None;  if r is not None: raise`): the inner tests of the chain do not
+    dominate the use, so "nothing a test reads is redefined up to the use" has to be asked on the paths that do not pass the
+    OUTERMOST test again (that one dominates the use: a path through it re-evaluates the whole chain)"""
+
+    def _tree_join(self, var, ds, at, depth, seen, stop):
+        out = super()._tree_join(var, ds, at, depth, seen, stop)
+        if out is not None:
+            return out
+        cfg = self.flow.cfg
+        chains = {id(d): cfg.conditions(d.node) for d in ds}
+        if any(d.node is at or d.node is None for d in ds):
+            return None
+        s2 = seen | {id(d) for d in ds}
+        outer = [None]
+
+        def rec(group, k):
+            if len(group) == 1:
+                d = group[0]
+                if len(chains[id(d)]) != k:
+                    return None
+                return self._x(d.value, d.node, depth + 1, s2, stop)
+            if any(len(chains[id(d)]) <= k for d in group):
+                return None
+            t = chains[id(group[0])][k][0]
+            if any(chains[id(d)][k][0] is not t for d in group):
+                return None
+            T_ = [d for d in group if chains[id(d)][k][1]]
+            F_ = [d for d in group if not chains[id(d)][k][1]]
+            if not T_ or not F_:
+                return rec(group, k + 1)
+            tn = cfg.node_containing(t)
+            if tn is None:
+                return None
+            if outer[0] is None:
+                if not cfg.dominates(tn, at):
+                    return None
+                outer[0] = tn
+            a, b = rec(T_, k + 1), rec(F_, k + 1)
+            if a is None or b is None:
+                return None
+            avoid = {outer[0].id} if tn is not outer[0] else None
+            for n in ast.walk(t):
+                p = facts.attr_path(n) if isinstance(n, (ast.Name, ast.Attribute)) else None
+                if p and not self.flow.no_def_between(p, tn, at, avoid):
+                    return None
+            return ast.IfExp(test=self._x(t, tn, depth + 1, s2, stop | {var}), body=a, orelse=b)
+        out = rec(list(ds), 0)
+        if out is not None:
+            self.expanded_paths.add(var)
+        return out
+
+
+def guards_of(prog, func: Func, typer=None, inline=True) -> List[facts.Guard]:
+    """facts.guards_of with the TreeExpander"""
+    cfg = cfg_of(func)
+    ex = TreeExpander(prog, func, typer, inline=inline)
+    out = []
+    for n in walk_no_nested(func.node):
+        if isinstance(n, ast.Raise):
+            cn = cfg.node_of(n)
+            if cn is None or not cfg.is_reachable(cn):
+                continue
+            conds = [(ex.expand(t, cfg.node_containing(t)), pol) for t, pol in cfg.conditions(cn)]
+            binders = [(fo.target, ex.expand(fo.iter, cfg.node_of(fo))) for fo in cfg.enclosing_fors(cn)]
+            out.append(facts.Guard(func, n, facts.exc_name(n), conds, binders, cn))
+    return out
+
+
 def guard_formulas(ctx, f: Func) -> List[GF]:
     roles = Roles(ctx.prog, f, ctx.typer)
-    return [GF(g, roles) for g in facts.guards_of(ctx.prog, f, ctx.typer, inline=True)]
+    return [GF(g, roles) for g in guards_of(ctx.prog, f, ctx.typer, inline=True)]
 
 
 def implication(R, fs: List) -> Optional[dict]:
@@ -671,16 +756,26 @@ def implication(R, fs: List) -> Optional[dict]:
         return {'_too_many_atoms': True}
     n = len(names)
     # background knowledge: A in B.all_predecessors (tpred(A,B)) implies that B has predecessors and A has successors
+    #                       A in B.all_children (desc(A,B)) implies that B has children
+    #                       _has_dependency_with_parents(A, B) implies that A has children or links (all three must be atoms)
     axioms = []
     for a in names:
         m = re.match(r"^tpred\(([^,()]+),([^,()]+)\)$", a)
         if m:
             for concl in (f"haslinks:pred({m.group(2)})", f"haslinks:succ({m.group(1)})"):
                 if concl in names:
-                    axioms.append((a, concl))
+                    axioms.append((a, [concl]))
+        m = re.match(r"^desc\(([^,()]+),([^,()]+)\)$", a)
+        if m and f"haslinks:kids({m.group(2)})" in names:
+            axioms.append((a, [f"haslinks:kids({m.group(2)})"]))
+        m = re.match(r"^call:_has_dependency_with_parents\(([^,()]+),([^,()]+)\)$", a)
+        if m:
+            concl = [f"haslinks:{k}({m.group(1)})" for k in ('kids', 'pred', 'succ')]
+            if all(c in names for c in concl):
+                axioms.append((a, concl))
     for bits in range(1 << n):
         env = {names[i]: bool(bits >> i & 1) for i in range(n)}
-        if any(env[a] and not env[c] for a, c in axioms):
+        if any(env[a] and not any(env[c] for c in cs) for a, cs in axioms):
             continue
         if evalf(R, env) and not any(evalf(x, env) for x in fs):
             return env
@@ -769,7 +864,18 @@ def require(ctx, o, f: Func, label: str, R, writes, eff, needs_elem: bool, mode_
         o.undecided(f, f.node, label, f"[{label}] not established ({why})")
         return False
     env_txt = ', '.join(f"{k}={v}" for k, v in sorted(cex.items()) if k in keys)
-    o.refute(f, f.node, label, f"[{label}] is missing: with {env_txt} no RuntimeError is raised before relation state is written")
+    # a test of the requirement exists, but under a further condition that lets the case through: name that condition
+    bypass = []
+    core = {k for k in keys if not k.startswith('none(')} or keys
+    for a in sorted(cex):
+        if a in keys or a.startswith('opaque:') or a.startswith('_'):
+            continue
+        env2 = dict(cex)
+        env2[a] = not cex[a]
+        if any(core & atoms_of(g.formula) and evalf(g.formula, env2) for g in usable):
+            bypass.append(a)
+    by_txt = f" (the test exists but is by-passed when {', '.join(f'{a}={cex[a]}' for a in bypass[:4])})" if bypass else ''
+    o.refute(f, f.node, label, f"[{label}] is missing: with {env_txt} no RuntimeError is raised before relation state is written{by_txt}")
     return False
 
 
